@@ -26,6 +26,13 @@ class InjectedBase(BaseException):
         self.n = n
 
 
+class InjectedAttr(AttributeError):
+    def __init__(self, site, n):
+        super().__init__(f"injected AttributeError at {site} (call {n})")
+        self.site = site
+        self.n = n
+
+
 class Ctx:
     def __init__(self):
         self.reset()
@@ -35,6 +42,7 @@ class Ctx:
         self.counts = {}
         self.faults = {}  # site -> set of call numbers | "all"
         self.base_faults = set()  # sites whose fault is a BaseException subclass
+        self.attr_faults = set()  # sites whose fault is an AttributeError subclass
         self.fired = []  # (site, n, exception object)
         self.writes = {}  # (site, n) -> [(comp, attr, value)]
         self.robot = None
@@ -63,7 +71,7 @@ class Ctx:
             setattr(self.robot.__dict__[cname], attr, value)
         plan = self.faults.get(tag)
         if plan is not None and (plan == "all" or n in plan):
-            e = (InjectedBase if tag in self.base_faults else Injected)(tag, n)
+            e = (InjectedBase if tag in self.base_faults else InjectedAttr if tag in self.attr_faults else Injected)(tag, n)
             self.fired.append((tag, n, e))
             raise e
         return n
